@@ -8,7 +8,7 @@ PixPolys == UNION { {<<<<x0, y0>>, <<x0 + w, y0>>, <<x0 + w, y0 + h>>, <<x0, y0 
                     {<<<<x0, y0>>, <<x0 + 4, y0 + 1>>, <<x0 + 1, y0 + 4>>>> : x0 \in {-5, -1, 0, 2, 5}, y0 \in {-5, -2, 0, 3}},
                     {<<<<x0, y0 - 2>>, <<x0 + 2, y0>>, <<x0, y0 + 2>>, <<x0 - 2, y0>>>> : x0 \in {-1, 0, 2, 3, 6}, y0 \in {0, 2, 3, 7}} }
 QueryCases(B) == {[op |-> "query", B |-> B, chy |-> t.chy, chx |-> t.chx, pq |-> p, how |-> hw] :
-                    t \in Tilings, p \in PixPolys, hw \in {"geom", "geom_other_crs", "bbox", "range"}}
+                    t \in Tilings, p \in PixPolys, hw \in {"geom", "geom_other_crs", "bbox", "range", "line"}}       \* line: the segment between the first two vertices (a query without area)
 \* pairs: a reduced set of destination-to-source maps (see ReprojGen), 2 shape/tiling pairs, same CRS or the exact-translation CRS (general path)
 PScales == {960, -960, 1920, 480, 1440}
 PShifts == {k * 960 + r : k \in IF Tier = "quick" THEN {-7, -3, 0, 2, 5} ELSE -8..8, r \in {0, 60, -60, 480}}
